@@ -10,6 +10,7 @@ pub mod c05;
 pub mod c05_l2;
 pub mod c06;
 pub mod c07;
+pub mod c07_s5;
 pub mod c08;
 pub mod c09;
 pub mod c09_san;
